@@ -16,6 +16,10 @@ type Bound struct {
 	ID string          `json:"id"`
 	Lo *model.TimeSpec `json:"lo,omitempty"`
 	Hi *model.TimeSpec `json:"hi,omitempty"`
+	// LoB / HiB: the side is a binding ("id"@[?lo,?hi]); outside the C03 fragment,
+	// generated only where robustness is the subject (C08).
+	LoB string `json:"lob,omitempty"`
+	HiB string `json:"hib,omitempty"`
 }
 
 // SPos is the subject position of a clause.
@@ -153,7 +157,7 @@ func FmtTriple(t model.TripleSpec) string {
 }
 
 func fmtBound(b Bound) string {
-	lo, hi := "", ""
+	lo, hi := b.LoB, b.HiB
 	if b.Lo != nil {
 		lo = FmtTime(*b.Lo)
 	}
